@@ -78,6 +78,18 @@ def c18(c):
     c.finish()
 
 
+def c10(c):
+    c.coq(["http", "httpresp", "server"], "C10", "ServerC")
+    c.trusted += ["the composition theorem covers pipelined body-less requests (c07 partial); requests with bodies, the close decision, TLS and the kernel are exercised by the harness, not proved",
+                  "the ClientConn handler-queue model (coq/server/ClientFifo.v) is tied to the code only through the end-to-end oracle (callbacks exactly once with the matching response)",
+                  "Go harness cmd/httpe2e (real nbhttp servers and clients on loopback)"]
+    args = ["-n", n(c, 2, 20)]
+    if c.tier == "thorough":
+        args.append("-full")
+    c.harness("httpe2e", args, overlay=True, timeout=3000)
+    c.finish()
+
+
 RESP_MODEL = ("httpresp", "Extract.v", ["rmodel"], "main.ml")
 
 
@@ -96,13 +108,14 @@ MODELS = [
     HTTP_MODEL,
     ("mempool", "Extract.v", ["mmodel"], "main.ml"),
 ]
-HARNESSES = [("mempool", False), ("httpparse", True), ("httpresp", True), ("httpref", True), ("stop", True)]
+HARNESSES = [("mempool", False), ("httpparse", True), ("httpresp", True), ("httpref", True), ("stop", True), ("httpe2e", True)]
 
 CHECKS = {
     "C06": c06,
     "C07": c07,
     "C08": c08,
     "C09": c09,
+    "C10": c10,
     "C18": c18,
     "C20": c20,
 }
@@ -114,7 +127,11 @@ import importlib as _importlib
 import os as _os
 
 for _f in sorted(_glob.glob(_os.path.join(_os.path.dirname(_os.path.abspath(__file__)), "props_*.py"))):
-    _m = _importlib.import_module(_os.path.basename(_f)[:-3])
+    try:
+        _m = _importlib.import_module(_os.path.basename(_f)[:-3])
+    except Exception as _e:  # a broken plug-in must not take the other checks down
+        print("WARNING: recipe plug-in %s does not load: %s" % (_os.path.basename(_f), _e))
+        continue
     CHECKS.update(getattr(_m, "CHECKS", {}))
     MODELS += [x for x in getattr(_m, "MODELS", []) if x not in MODELS]
     HARNESSES += [x for x in getattr(_m, "HARNESSES", []) if x not in HARNESSES]
